@@ -194,6 +194,7 @@ package run
 //@
 //@ func (*Run).Do
 //@   props C05 C06 C16
+//@   spawns (*Run).Do$1
 //@   requires wfRun(r) && r.options.Concurrency >= 1 && !closed(r.progressRunner.stopped) && ctx != nil
 //@   requires wfT(r.activeScenario.t) && !r.activeScenario.t.tearingDown && !r.activeScenario.t.failed && r.activeScenario.scenario != nil && r.activeScenario.scenario.ScenarioFn != nil &&
 //@            r.activeScenario.m != nil && r.activeScenario.m.Setup != nil && isBound(r.activeScenario.Teardown, r.activeScenario.t, "teardown")
@@ -309,6 +310,14 @@ package run
 //@   dyncall New : builderNew
 //@   ghost at entry : G14ignoreCommon = t.IgnoreCommonFlags ; G14ran = false ; G14err = false ; G14failed = false
 //@   assert before call NewRun : [at-least-one-worker] arg0.Concurrency >= 1
+//@   ghost after call dyn:New : GFtrig = ret0
+//@   ghost after call (*FlagSet).GetDuration : GFdur[arg1] = ret0
+//@   ghost after call (*FlagSet).GetInt : GFint[arg1] = ret0
+//@   ghost after call (*FlagSet).GetUint64 : GFint[arg1] = ret0
+//@   ghost after call (*FlagSet).GetBool : GFbool[arg1] = ret0
+//@   assert before call NewRun : [run-options-from-the-config-file] G14ignoreCommon ==> (arg0.Scenario == GFtrig.Options.Scenario && arg0.MaxDuration == GFtrig.Options.MaxDuration && arg0.Concurrency == GFtrig.Options.Concurrency && arg0.MaxIterations == GFtrig.Options.MaxIterations && arg0.MaxFailures == GFtrig.Options.MaxFailures && arg0.MaxFailuresRate == GFtrig.Options.MaxFailuresRate && arg0.IgnoreDropped == GFtrig.Options.IgnoreDropped)
+//@   assert before call NewRun : [run-options-from-the-flags] !G14ignoreCommon ==> (arg0.Scenario == args[0] && arg0.MaxDuration == GFdur["max-duration"] && arg0.Concurrency == GFint["concurrency"] && arg0.MaxIterations == GFint["max-iterations"] && arg0.MaxFailures == GFint["max-failures"] && arg0.MaxFailuresRate == GFint["max-failures-rate"] && arg0.IgnoreDropped == GFbool["ignore-dropped"])
+//@   assert before call NewRun : [trigger-as-built] arg2 == GFtrig
 //@   ghost before call (*Run).Do : assume run.activeScenario.scenario.ScenarioFn != nil && run.activeScenario.m.Setup != nil && arg1 != nil
 //@   ghost before call (*Run).Do : assume run.result.runOptions.MaxFailuresRate <= 1000
 //@   ghost after call (*Run).Do : G14ran = (ret1 == nil)
